@@ -73,7 +73,7 @@ def run(ctx: Ctx) -> int:
         "construct_function() is called and: structure (isomorphism for [B0], error blocks on every departure, shared subroutine objects, mirror relation by z3), contexts "
         "(EXACT soundness of all keys and FREE exactness of GroupSize/GroupIndex, with the symbolic executions restricted to those whose main-graph block sequence starts with "
         "the path), and - as by-products, not solver-decided - the contract's graph is unchanged and contexts do not depend on other functions built",
-        [PF.construct_function, PF.copy_main_cfg, PF._apply_transaction_context_analysis, Function.__init__],
+        [lambda: PF.construct_function, lambda: PF.copy_main_cfg, lambda: PF._apply_transaction_context_analysis, lambda: Function.__init__],
         {"max_path_len": 3 if ctx.quick else 4, "unroll": 2},
         ["the dispatch path is matched against the main-graph projection of the block trace (blocks of subroutine activations skipped)"],
     )
